@@ -24,9 +24,9 @@ Core == SlotClasses \ {"nilSignedByOther", "otherBlockSignedByOther"}
    five equal validators with <= 2 bad slots *)
 Q2  == Cfg("q",  <<3, 3, 2>>,    2, 2, 2, All)
 H1  == Cfg("h1", <<2, 2, 2, 1>>, 0, 3, 3, All)
-S3  == Cfg("s3", <<1, 2, 2>>,    1, 3, 0, All)
+S3  == Cfg("s3", <<1, 2, 2>>,    1, 3, 0, Core)
 N4  == Cfg("n4", <<2, 2, 2, 1>>, 2, 2, 2, All)
-P2  == Cfg("p2", <<1, 1>>,       1, 2, 1, All)
+P2  == Cfg("p2", <<1, 1>>,       1, 2, 0, All)
 V5  == Cfg("v5", <<1, 1, 1, 1, 1>>, 1, 2, 0, Core)
 (* validator-set histories: block `last` changes the set of height last+1 (the driver's application does it in
    EndBlock like plugin.AdminOp.updateValidators); the commit for block `last` is still the old set's business *)
